@@ -28,6 +28,8 @@ def d4(ctx, prog, base, bl, fc, fc_body):
     import copy
     bl = inline.inlined(prog, bl, skip={'_compute_convergence_traces', '_final_compute', '_batch_loop_compute'})
     fc_i = inline.inlined(prog, fc, skip={'_compute_convergence_traces', '_final_compute', '_batch_loop_compute'})
+    from .. import normalize
+    bl, fc_i = normalize.structured(bl), normalize.structured(fc_i)
     fc_body = [s_ for s_ in fc_i.node.body if not (isinstance(s_, ast.Expr) and isinstance(s_.value, ast.Constant))]
     # single-assignment locals of the hook are expanded into their definitions (aliases of the bookkeeping list, named counts)
     stores_ = {}
@@ -54,7 +56,7 @@ def d4(ctx, prog, base, bl, fc, fc_body):
         return
     book = self_attr(expand(apps[0].func.value))
     pm = astutil.parents(bl.node)
-    ga = [(norm(t), pol) for t, pol in astutil.guards(apps[0], pm, bl.node)]
+    ga = [(norm(t), pol) for t, pol in normalize.conjuncts(astutil.guards(apps[0], pm, bl.node))]
     ctx.check(ga == [('self.convergence_step', True)], 'C08-D4', f'{key} record', f'the processed count is recorded under the condition {ga}, not for every batch when a convergence step is set',
               'count recorded after every batch when a convergence step is set', bl.where(apps[0]))
 
@@ -71,7 +73,7 @@ def d4(ctx, prog, base, bl, fc, fc_body):
     if len(calls) != 1:
         ctx.undecided('C08-D4', key, f'{len(calls)} emission sites in the batch hook', bl.where())
         return
-    g = astutil.guards(calls[0], pm, bl.node)
+    g = normalize.conjuncts(astutil.guards(calls[0], pm, bl.node))
     cmp_ = [t for t, pol in g if pol and isinstance(expand(t), ast.Compare) and len(expand(t).ops) == 1]
     if len(cmp_) != 1:
         ctx.undecided('C08-D4', key, 'emission guard not a single comparison', bl.where(calls[0]))
@@ -88,7 +90,7 @@ def d4(ctx, prog, base, bl, fc, fc_body):
         ctx.check(ok, 'C08-D4', f'{key} guard', f'a point is taken when `{norm(t)}`: not "processed count - count at the last point >= step"',
                   f'point taken when `{norm(t)}` (count - reference >= step)', bl.where(calls[0]))
     # the reset in the same branch
-    branch = next(par for par, field in astutil.enclosing(calls[0], pm, bl.node) if isinstance(par, ast.If) and par.test is t0)
+    branch = next(par for par, field in astutil.enclosing(calls[0], pm, bl.node) if isinstance(par, ast.If) and any(n_ is t0 for n_ in ast.walk(par.test)))
     resets = [s_ for s_ in ast.walk(branch) if isinstance(s_, ast.Assign) and self_attr(s_.targets[0]) == book and isinstance(s_.targets[0], ast.Attribute)]
     if len(resets) != 1 or not (isinstance(resets[0].value, ast.List) and len(resets[0].value.elts) == 1):
         ctx.undecided('C08-D4', f'{key} reference', 'the reference is not reset by one assignment of a one-element list in the emission branch', bl.where(calls[0]))
